@@ -117,6 +117,14 @@ func genCondHist(r *rand.Rand, id string, tier string) string {
 				if r.Intn(3) == 0 {
 					ops = append(ops, "ro 1") // Init replaces the instance of the variable; a read-only instance someone else holds stays as it is
 				}
+				if r.Intn(4) == 0 {
+					// Free releases the handle it is called on (unless read-only), not the instance another handle refers to
+					ops = append(ops, "hold", "free")
+					if r.Intn(2) == 0 {
+						ops = append(ops, "kw "+genKwArg(r).String(), "ex "+genExArg(r).String())
+					}
+					continue
+				}
 				ops = append(ops, "hold", []string{"init", fmt.Sprintf("cond %s %s %s", genKwArg(r), genOpArg(r), genExArg(r))}[r.Intn(2)])
 			} else {
 				ops = append(ops, fmt.Sprintf("cond %s %s %s", genKwArg(r), genOpArg(r), genExArg(r)))
@@ -136,8 +144,10 @@ func obsCond(c stackage.Condition) string {
 		if c.Err() != nil {
 			e = "1"
 		}
-		return fmt.Sprintf("K%s O%s X%s V%s R%s N%s G%s S%s", hx(c.Keyword()), opStr(c.Operator()), Short(c.Expression()), v, e,
-			b01(c.CanNest()), b01(c.IsNesting()), hx(c.String()))
+		// through the Condition into the Stack it holds, as a parent's Traverse does
+		tv, tok := stackage.And().Push(c).Traverse(0, 0)
+		return fmt.Sprintf("K%s O%s X%s V%s R%s N%s G%s S%s T%s:%s", hx(c.Keyword()), opStr(c.Operator()), Short(c.Expression()), v, e,
+			b01(c.CanNest()), b01(c.IsNesting()), hx(c.String()), Short(tv), b01(tok))
 	})
 }
 
@@ -150,7 +160,12 @@ func runCondHist(payload string) string {
 		return guard(func() string {
 			switch t[0] {
 			case "hold":
-				held, holding, detached = c, true, false // a copy of the handle: the same instance until c is re-initialised
+				held, holding, detached = c, !c.IsZero(), false // a copy of the handle: the same instance until c is re-initialised
+			case "free":
+				c.Free()
+				if c.IsZero() {
+					detached = holding // the handle is zero now; the copy still refers to the instance, which is as it was
+				}
 			case "init":
 				c.Init()
 				detached = holding
